@@ -559,6 +559,7 @@ impl<'a> Ev<'a> {
         }
         // merge environments of non-diverging arms
         let live: Vec<&Vec<HashMap<String, Value>>> = envs.iter().filter(|(_, d)| !*d).map(|(e, _)| e).collect();
+        let live_arms: Vec<&Value> = envs.iter().zip(arms_v.iter()).filter(|((_, d), _)| !*d).map(|(_, a)| a).collect();
         if live.is_empty() {
             self.env = before;
         } else {
@@ -582,8 +583,11 @@ impl<'a> Ev<'a> {
                         }
                         merged[d].insert(k, json!({"k":"vecof","items":items}));
                     } else {
+                        // a local assigned differently by the arms: keep which arm gave which value (a `match` value whose
+                        // arms carry the patterns of the statement-level match), so that per-variant rules still see it
                         let ty = vals.iter().filter_map(ty_of).next();
-                        merged[d].insert(k, with_ty(json!({"k":"alt","alts":vals,"scrut":scrut}), ty));
+                        let arms_m: Vec<Value> = vals.iter().zip(live_arms.iter()).map(|(v, a)| json!({"pat":a["pat"],"variants":a["variants"],"v":v})).collect();
+                        merged[d].insert(k, with_ty(json!({"k":"match","scrut":scrut,"arms":arms_m,"merged":true}), ty));
                     }
                 }
             }
